@@ -421,16 +421,37 @@ def finishRead (g : Array Rat) (st : St) : Except Err (List HitOut × List HoldO
   let tm2 ← liftT (fromBcSnap t0 bcs true)
   .ok (hits, holds, tm2, cs)
 
-/-- `BMSMap.read(lines, note_channel_config)` -/
-def read (g : Array Rat) (lay : Layout) (lines : List Bytes) : Except Err Chart := do
-  let doc ← parseDoc lines
-  let hdr ← readHeader doc.header
-  if hdr.bpm0 ≤ 0 then .error .unsupported else
-  let ctx : Ctx := ⟨lay, hdr.lnEnd, hdr.exbpms, hdr.samples⟩
-  let st ← foldlE applyEv (initSt hdr.bpm0) (events ctx doc.notes)
-  match finishRead g st with
+/-- `BMSMap.read` up to the timed hits and holds (everything but the final `tm.reseat()`) -/
+def readNotes (g : Array Rat) (lay : Layout) (lines : List Bytes) : Except Err (List HitOut × List HoldOut) :=
+  match parseDoc lines with
   | .error e => .error e
-  | .ok r => .ok ⟨hdr, r.1, r.2.1, r.2.2.1, r.2.2.2⟩
+  | .ok doc =>
+    match readHeader doc.header with
+    | .error e => .error e
+    | .ok hdr =>
+      if hdr.bpm0 ≤ 0 then .error .unsupported else
+      match foldlE applyEv (initSt hdr.bpm0) (events ⟨lay, hdr.lnEnd, hdr.exbpms, hdr.samples⟩ doc.notes) with
+      | .error e => .error e
+      | .ok st =>
+        match timedNotes g st with
+        | .error e => .error e
+        | .ok r => .ok (r.1, r.2.1)
+
+/-- `BMSMap.read(lines, note_channel_config)` -/
+def read (g : Array Rat) (lay : Layout) (lines : List Bytes) : Except Err Chart :=
+  match parseDoc lines with
+  | .error e => .error e
+  | .ok doc =>
+    match readHeader doc.header with
+    | .error e => .error e
+    | .ok hdr =>
+      if hdr.bpm0 ≤ 0 then .error .unsupported else
+      match foldlE applyEv (initSt hdr.bpm0) (events ⟨lay, hdr.lnEnd, hdr.exbpms, hdr.samples⟩ doc.notes) with
+      | .error e => .error e
+      | .ok st =>
+        match finishRead g st with
+        | .error e => .error e
+        | .ok r => .ok ⟨hdr, r.1, r.2.1, r.2.2.1, r.2.2.2⟩
 
 /-! ## writer: `BMSMap.write` -/
 
